@@ -299,7 +299,7 @@ impl Finding {
     pub fn matches(&self, v: &Violation) -> bool {
         self.status == "open"
             && self.property == v.property
-            && self.clause == v.clause
+            && (self.clause == "*" || self.clause == v.clause)
             && self.signature_contains.iter().all(|s| v.signature.contains(s))
     }
 }
